@@ -22,7 +22,9 @@ ALLOWED_AXIOMS = {
 }
 # primitive types and operations (Print Assumptions lists them; they are not axioms)
 PRIMITIVES_OK = re.compile(r'^(float|int|of_uint63|of_int63|normfr_mantissa|frshiftexp|ldshiftexp|next_up|next_down|add|sub|mul|div|sqrt|abs|opp|eqb|ltb|leb|compare|classify|'
-                           r'(PrimFloat|PrimInt63|Leibniz|Uint63|Int63)\.[\w.\']+)$')
+                           r'(PrimFloat|PrimInt63|Leibniz)\.[\w.\']+)$')
+# Coq.Numbers.Cyclic.Int63.Uint63: the standard library's specification axioms of the primitive 63-bit integers (reached through ZtoF / of_uint63)
+STDLIB_AXIOM_PREFIXES = ('Uint63.',)
 
 
 # ----------------------------------------------------------------------------- floats -> Coq
@@ -238,7 +240,7 @@ def axiom_violations(per):
     for t, axs in per.items():
         if axs is None: bad.append(f'{t}: no Print Assumptions output'); continue
         for a in axs:
-            if a in ALLOWED_AXIOMS: continue
+            if a in ALLOWED_AXIOMS or a.startswith(STDLIB_AXIOM_PREFIXES): continue
             if PRIMITIVES_OK.match(a): continue
             bad.append(f'{t}: depends on {a}')
     return bad
